@@ -14,6 +14,9 @@ pub enum Wrap {
     EnterOnPoll,
     /// in_span(span) around enter_on_poll(name)
     InSpanEnterOnPoll,
+    /// in_span(span) around a combinator that catches a panic of the inner poll (and reports
+    /// Pending) around enter_on_poll(name): the inner poll may unwind through the per-poll span
+    InSpanCatch,
     /// fastrace_futures::StreamExt::in_span
     Stream,
     /// fastrace_futures::SinkExt::in_span
@@ -56,7 +59,12 @@ pub enum Op {
     ChildLocal { slot: Slot, props: u8 },
     AddProps { slot: Slot, n: u8 },
     AddEvent { slot: Slot, n: u8 },
-    Finish { slot: Slot },
+    /// `unwind`: the span is released by a frame that is unwinding (a caught panic)
+    Finish {
+        slot: Slot,
+        #[serde(default)]
+        unwind: bool,
+    },
     Cancel { slot: Slot },
     Elapsed { slot: Slot },
     CtxSpan { slot: Slot, ctx: Slot },
@@ -79,6 +87,9 @@ pub enum Op {
     NewTask { task: Slot, wrap: Wrap, span: Option<Slot> },
     Poll { task: Slot, kind: PollKind, ready: bool },
     DropTask { task: Slot },
+    /// set_reporter() once more, mid-run, with the same configuration: the collector starts from a
+    /// fresh state (what it held of the traces in flight is gone) and a second collector thread runs
+    ReplaceReporter { cancelable: bool, interval_ns: u64 },
     /// caller-supplied code unwinds out of a tracing call (a name conversion or a property closure
     /// that panics; the harness catches it): the call must leave the thread's context untouched
     UserPanic { kind: u8 },
@@ -86,6 +97,8 @@ pub enum Op {
     EventNew { ev: Slot, n: u8 },
     /// records a prepared event: on the span in `slot`, or (None) through the local parent
     AddEventFrom { slot: Option<Slot>, ev: Slot },
+    /// only as the last step of a poll body of an InSpanCatch task: the body panics
+    BodyPanic,
     /// only inside a poll body: creates a child span of the local parent that the scripted future
     /// keeps across the suspension point; it is released when the future itself is dropped
     HoldChild,
